@@ -147,6 +147,8 @@ def cases(tier):
     cs = [Case("split_sync", "case_split_sync", {"m": b["words"]}),
           Case("fronts_1d_int", "case_fronts_1d", {"n": b["fronts_len"], "binary": False}),
           Case("fronts_1d_ttl", "case_fronts_1d", {"n": b["fronts_len"] + 2, "binary": True}),
+          Case("fronts_1d_two_samples", "case_fronts_1d", {"n": 2, "binary": False}),
+          Case("fronts_1d_one_sample", "case_fronts_1d", {"n": 1, "binary": False}),
           Case("rises_analog", "case_rises_analog", {"n": 4 if tier == "quick" else 5})]
     for (r, c) in b["fronts_2d"]:
         for ax in (0, 1, -1):
